@@ -89,7 +89,9 @@ func subRun(kind string, v any, gomaxprocs int) []byte {
 	cmd.Stderr = os.Stderr
 	out, err := cmd.Output()
 	if err != nil {
-		panic(fmt.Sprintf("subprocess %s failed: %v", kind, err))
+		// a crash of the implementation in this process is an outcome, not a harness error
+		b, _ := json.Marshal(map[string]any{"fp": []uint64{999999999, asm.H62(err.Error())}, "trace": []any{}, "crashed": err.Error()})
+		return b
 	}
 	return out
 }
